@@ -10,10 +10,11 @@ import (
 // VerifRecordedBookOptions returns the workbook options protogen records into
 // the generated proto file of a table workbook, for the given global header
 // option (verification hook; compiled only with the "verif" build tag).
-func VerifRecordedBookOptions(header *options.HeaderOption) *tableaupb.WorkbookOptions {
+func VerifRecordedBookOptions(header *options.HeaderOption, bookOpts *tableaupb.WorkbookOptions) *tableaupb.WorkbookOptions {
 	opts := options.NewDefault()
 	opts.Proto.Input.Header = header
 	gen := NewGeneratorWithOptions("protoconf", ".", ".", opts)
 	p := newTableParser("Book", "", "Book.xlsx", gen)
+	p.mergeBookOptions(bookOpts)
 	return p.wb.Options
 }
